@@ -945,6 +945,9 @@ dsqdata_loader_thread(void *p)
       if (nidx == 0)  // then we're EOD.
 	{ 
 	  //printf("loader: reached EOD.\n");
+	  /* The index header says how many sequences there are. fread() returning fewer records than that is a truncated
+	   * index file (interrupted copy, full disk), not the end of a smaller database. */
+	  if ((uint64_t) i0 != dd->nseq) ESL_XEXCEPTION(eslEFORMAT, "dsqdata index loader: header promises %" PRIu64 " sequences, index file holds %d", dd->nseq, i0);
 	  dsqdata_chunk_Destroy(chu);	  
 	  nalloc--;  // we'd counted that chunk towards <nalloc>.
 	  break;     // this is the only way out of loader's main loop
